@@ -34,6 +34,25 @@ pub fn replay(s: &mut Summary, v: &V) {
 }
 
 
+/// Utf8Check vectors: from_utf8 / CStr::to_str with the complete error (valid_up_to, error_len; 0 = None)
+pub fn replay_utf8(s: &mut Summary, v: &V) {
+    let b = bytes_of(&v["b"]);
+    let exp = &v["exp"];
+    let render = |r: Result<&str, core::str::Utf8Error>| match r {
+        Ok(_) => json!({"ok": true}),
+        Err(e) => json!({"ok": false, "upto": e.valid_up_to(), "elen": e.error_len().unwrap_or(0)}),
+    };
+    s.check("string::from_utf8 (with error)", render(konst::string::from_utf8(&b).map_err(|e| e.0)), exp);
+    s.guard("std::str::from_utf8 (with error)", render(std::str::from_utf8(&b)), exp);
+    if !b.contains(&0) {
+        let mut c = b.clone();
+        c.push(0);
+        let cs = CStr::from_bytes_with_nul(&c).unwrap();
+        s.check("cstr::to_str (with error)", render(kc::to_str(cs).map_err(|e| e.0)), exp);
+        s.guard("std CStr::to_str (with error)", render(cs.to_str()), exp);
+    }
+}
+
 /// random byte strings up to 48 bytes with nuls at random places: {ev: "until_nul" | "with_nul", b, ok, c}
 pub fn record(rng: &mut rand::rngs::SmallRng, n_events: usize, out: &mut dyn std::io::Write) {
     use rand::Rng;
